@@ -189,6 +189,45 @@ pub fn run(ctx: &'static Ctx) {
     vals.sort();
     vals.dedup();
     let n64: u64 = vals.par_iter().map(|v| all_carriers(ctx, *v)).sum();
+    // the same values handed to every sink the crate itself provides (a sink may override word/dword/qword): the bytes
+    // that arrive must be the same narrowest encoding
+    let nsink: u64 = vals
+        .par_iter()
+        .map(|v| {
+            let mut wbuf = [0u8; 9];
+            let wl = int_encode_arr(*v, &mut wbuf);
+            let want = &wbuf[..wl];
+            let mut n = 0;
+            for (carrier, obj) in [("u64", v as &dyn Aml), ("usize", &(*v as usize) as &dyn Aml)] {
+                let mut vecsink: Vec<u8> = Vec::new();
+                obj.to_aml_bytes(&mut vecsink);
+                let mut pb = acpi_tables::aml::PackageBuilder::new();
+                obj.to_aml_bytes(&mut pb);
+                let p = ser(&pb);
+                let w = pkg_decode(&p[1..]).map(|x| x.1).unwrap_or(1);
+                let mut pb2 = acpi_tables::aml::PackageBuilder::new();
+                pb2.add_element(obj);
+                let p2 = ser(&pb2);
+                let w2 = pkg_decode(&p2[1..]).map(|x| x.1).unwrap_or(1);
+                let mut sd = acpi_tables::sdt::Sdt::new(*b"INTS", 36, 1, *b"VERIF1", *b"VERIFTBL", 1);
+                obj.to_aml_bytes(&mut sd);
+                for (sink, got) in [("Vec", &vecsink[..]), ("PackageBuilder (as sink)", &p[(2 + w).min(p.len())..]), ("PackageBuilder::add_element", &p2[(2 + w2).min(p2.len())..]), ("Sdt", &sd.as_slice()[36..])] {
+                    n += 1;
+                    if got != want {
+                        ctx.violation_sized(
+                            &format!("int:sink:{}", sink),
+                            *v,
+                            || format!("{} as {} delivered to {} arrives as {} ; narrowest encoding is {}", v, carrier, sink, hex(got), hex(want)),
+                            || json!({"family": "int", "value": v, "carrier": carrier, "sink": sink}),
+                        );
+                    }
+                }
+            }
+            n
+        })
+        .sum();
+    calls.fetch_add(nsink, Ordering::Relaxed);
+    ctx.engine("E3.u64-structured-sinks", json!({"values": vals.len(), "sinks": ["Vec", "PackageBuilder as sink", "PackageBuilder::add_element", "Sdt"], "deliveries": nsink}));
     calls.fetch_add(n64, Ordering::Relaxed);
     ctx.st(vals.len() as u64);
     for v in &vals {
